@@ -438,6 +438,11 @@ fn oracle(rep: &mut Report, repo: &Path, index: &Path, data: &[u8], obs: &Obs, o
             return;
         }
     };
+    if state.link().is_some() {
+        // a split index: the file only holds the entries that differ from the shared index, git lists the merged view
+        rep.bucket("oracle:split-index-listing-skipped");
+        return;
+    }
     let mine = gix_entries(state);
     if mine.len() != git_entries.len() {
         rep.oracle_failure(
@@ -787,6 +792,7 @@ enum Step {
     RealMerge,
     Sparse,
     Chmod,
+    SplitIndex,
 }
 
 fn do_step(rep: &mut Report, r: &mut Rng, repo: &mut Repo, step: Step) {
@@ -952,6 +958,9 @@ fn do_step(rep: &mut Report, r: &mut Rng, repo: &mut Repo, step: Step) {
             repo.g(rep, &["branch", "-q", "-D", "side"], None);
             repo.conflicted.push(p);
         }
+        Step::SplitIndex => {
+            repo.g(rep, &["update-index", "--split-index"], None);
+        }
         Step::Sparse => {
             if !repo.committed || !repo.conflicted.is_empty() {
                 return;
@@ -996,9 +1005,17 @@ fn snapshot_case(rep: &mut Report, repo: &mut Repo, label: &str, seen: &mut std:
             true,
         );
     }
+    if let Ok(Ok((state, _))) = &obs.first {
+        let p = |b: bool| if b { "same" } else { "absent" };
+        rep.case(
+            &format!("specext {}", hex(&data)),
+            &format!("untr={} link={}", p(state.untracked().is_some()), p(state.link().is_some())),
+            true,
+        );
+    }
     rep.bucket(&format!("git-index v{}", index_version(&data)));
     rep.bucket(&format!("step:{label}"));
-    for (sig, name) in [(b"IEOT", "ieot"), (b"EOIE", "eoie"), (b"TREE", "tree"), (b"REUC", "reuc"), (b"UNTR", "untr"), (b"sdir", "sdir")] {
+    for (sig, name) in [(b"IEOT", "ieot"), (b"EOIE", "eoie"), (b"TREE", "tree"), (b"REUC", "reuc"), (b"UNTR", "untr"), (b"sdir", "sdir"), (b"link", "link")] {
         if data.windows(4).any(|w| w == sig) {
             rep.bucket(&format!("ext:{name}"));
         }
@@ -1060,13 +1077,13 @@ fn scenario(rep: &mut Report, r: &mut Rng, scratch: &Scratch, k: u64, seen: &mut
         0 | 1 | 2 => vec![Step::AddFiles, Step::LongPaths, Step::LongPaths, Step::AddFiles, Step::LongPaths, Step::IntentToAdd],
         3 => vec![Step::AddFiles, Step::Commit, Step::RealMerge, Step::ResolveConflict, Step::Status],
         4 => vec![Step::AddFiles, Step::AddFiles, Step::Commit, Step::Sparse, Step::Status],
-        5 => vec![Step::AddFiles, Step::IntentToAdd, Step::SkipWorktree, Step::AssumeUnchanged, Step::ConflictInfo, Step::ResolveConflict, Step::LongPaths],
+        5 => vec![Step::AddFiles, Step::IntentToAdd, Step::SkipWorktree, Step::AssumeUnchanged, Step::ConflictInfo, Step::ResolveConflict, Step::LongPaths, Step::SplitIndex, Step::ModifyAdd, Step::Remove],
         _ => {
             let n = 3 + r.usize(7);
             let all = [
                 Step::AddFiles, Step::AddFiles, Step::Commit, Step::ModifyAdd, Step::SkipWorktree, Step::AssumeUnchanged,
                 Step::IntentToAdd, Step::ConflictInfo, Step::ResolveConflict, Step::LongPaths, Step::Status, Step::Remove,
-                Step::RealMerge, Step::Sparse, Step::Chmod, Step::Commit,
+                Step::RealMerge, Step::Sparse, Step::Chmod, Step::Commit, Step::SplitIndex,
             ];
             let mut v = vec![Step::AddFiles];
             for _ in 0..n {
